@@ -326,6 +326,229 @@ Definition step_skip (s : sys) (a : act) : sys := match step s a with Some s' =>
 Definition run (sched : list act) : sys := fold_left step_skip sched sys0.
 Definition trace (s : sys) : list lev := rev (s_trace s).
 
+(* ====================================================================================================
+   The PTY waiter (crates/ripd/src/tasks/pty.rs run_pty_task).  One task, FOUR event sources besides the
+   waiter itself: the child (exit status, through the blocking wait_handle), the cancel channel, the control
+   channel (stdin write / resize / signal requests accepted by the router) and the reader thread (chunks read
+   from the master side, sent through output_tx; the channel closes when the thread returns, which it does
+   when the master reports end of output: every descriptor of the SLAVE side is closed).  The waiter emits all
+   frames itself, in the loop
+
+       while !(exit_status.is_some() && output_closed) { select! { wait_handle if exit_status.is_none() ..
+         cancel_rx.changed() if cancel_reason.is_none() .. control_rx.recv() .. output_rx.recv() if !output_closed } }
+
+   `keeps` = the authority keeps its own descriptor of the slave side for the whole function (the code before
+   /repo 35c2d72: `pair.slave` was only borrowed by spawn_command): then the master never reports end of
+   output.  Since 35c2d72 the slave is dropped right after the spawn (T1: Gen/PumpJoin.v gen_pty_keeps_slave). *)
+Inductive pev :=
+| PE (e : lev)               (* the frame kinds of every task stream; the PTY's output frames are LDelta 2 *)
+| PCtl (k : N).              (* tool_task_stdin_written (0) / tool_task_resized (1) / tool_task_signalled (2) *)
+
+Definition pev_code (e : pev) : N := match e with PE e' => lev_code e' | PCtl k => 30 + k end.
+
+(* the language of a PTY task stream: that of every task stream, with control acknowledgements allowed where
+   output frames are (while running, before or after a cancel request) *)
+Definition prstep (r : rst) (e : pev) : rst :=
+  match e with
+  | PE e' => rstep r e'
+  | PCtl _ => match r with RRunning => RRunning | RCancelReq => RCancelReq | _ => RBad end
+  end.
+Definition precognise (t : list pev) : rst := fold_left prstep t R0.
+
+Inductive qpc :=
+| QStart                     (* run_task not started *)
+| QSpawnedPc                 (* spawn frame emitted; log writer / openpty / cwd / spawn_command / reader / writer next *)
+| QLoop                      (* Running emitted, reader thread and wait thread started; in the while loop *)
+| QCancelEmit (ok : bool)    (* loop left, reader thread joined, cancel: emit tool_task_cancelled *)
+| QFinal (st : N)            (* emit the terminal status *)
+| QEnd.
+
+Record psys := {
+  q_pc : qpc;
+  q_exit : option bool;      (* exit_status (Some ok once the wait_handle arm has fired; ok=false: wait failed) *)
+  q_closed : bool;           (* output_closed *)
+  q_reason : bool;           (* cancel_reason.is_some() *)
+  q_flag : bool;             (* the watch channel holds a request the receiver has not seen *)
+  q_child_exited : bool;     (* the process has terminated *)
+  q_slave_closed : bool;     (* no descriptor of the slave side is open any more *)
+  q_reader_done : bool;      (* no reader thread is running (not started yet, or returned: output_tx dropped) *)
+  q_chan : list bool;        (* chunks waiting in output_rx, oldest first; false = a chunk whose frame is suppressed *)
+  q_ctl : list N;            (* requests waiting in control_rx, oldest first *)
+  q_trace : list pev         (* frames, newest first *)
+}.
+
+Definition psys0 : psys :=
+  {| q_pc := QStart; q_exit := None; q_closed := false; q_reason := false; q_flag := false;
+     q_child_exited := false; q_slave_closed := false; q_reader_done := true; q_chan := []; q_ctl := [];
+     q_trace := [] |}.
+
+Inductive pact :=
+| QSpawnFrame                (* run_task: subscribe to the cancel channel, emit Spawned *)
+| QFail                      (* one of run_pty_task's seven fail_task sites *)
+| QStartRunning              (* child spawned, slave dropped (unless keeps), emit Running, start reader + wait threads *)
+| QRead (emits : bool)       (* reader thread: read(2) returned n > 0 bytes; sent to the channel *)
+| QChildExit                 (* the process terminates (by itself, by a signal typed at the terminal, by the kill) *)
+| QSlaveClosed               (* the last descriptor of the slave side is closed (child and descendants) *)
+| QReaderEof                 (* reader thread: read(2) reports end of output (0 / EIO); the thread returns *)
+| QCancel                    (* POST /tasks/{id}/cancel, at any moment *)
+| QCtlSend (k : N)           (* POST stdin / resize / signal accepted: a message in the control channel *)
+| QLoopExit (ok : bool)      (* select arm 1: wait_handle *)
+| QLoopCancel                (* select arm 2: cancel_rx.changed(): emit CancelRequested, kill *)
+| QLoopCtl (applied : bool)  (* select arm 3: drain_output, handle_control (acknowledged iff applied) *)
+| QLoopChunk                 (* select arm 4: output_rx.recv(): Some(chunk) => emit_output | None => output_closed *)
+| QLoopDone                  (* the loop condition is false: output_thread.await, control_tx.take(), summary *)
+| QEmitCancelled
+| QEmitFinal.
+
+Definition q_with (s : psys) (pc : qpc) (tr : list pev) : psys :=
+  {| q_pc := pc; q_exit := q_exit s; q_closed := q_closed s; q_reason := q_reason s; q_flag := q_flag s;
+     q_child_exited := q_child_exited s; q_slave_closed := q_slave_closed s; q_reader_done := q_reader_done s;
+     q_chan := q_chan s; q_ctl := q_ctl s; q_trace := tr |}.
+
+Definition pdelta : pev := PE (LDelta 2).
+(* the frames of the chunks in `l` (oldest first), pushed on a newest-first trace *)
+Fixpoint push_chunks (l : list bool) (tr : list pev) : list pev :=
+  match l with [] => tr | c :: r => push_chunks r (if c then pdelta :: tr else tr) end.
+
+Definition loop_goes_on (s : psys) : bool :=
+  negb (match q_exit s with Some _ => true | None => false end && q_closed s).
+
+Definition pstep (keeps : bool) (s : psys) (a : pact) : option psys :=
+  match a with
+  | QSpawnFrame =>
+    match q_pc s with
+    | QStart =>
+      Some {| q_pc := QSpawnedPc; q_exit := q_exit s; q_closed := q_closed s; q_reason := q_reason s; q_flag := false;
+              q_child_exited := q_child_exited s; q_slave_closed := q_slave_closed s; q_reader_done := q_reader_done s;
+              q_chan := q_chan s; q_ctl := q_ctl s; q_trace := PE LSpawned :: q_trace s |}
+    | _ => None end
+  | QFail => match q_pc s with QSpawnedPc => Some (q_with s QEnd (PE (LStatus 4) :: q_trace s)) | _ => None end
+  | QStartRunning =>
+    match q_pc s with
+    | QSpawnedPc =>
+      Some {| q_pc := QLoop; q_exit := q_exit s; q_closed := q_closed s; q_reason := q_reason s; q_flag := q_flag s;
+              q_child_exited := q_child_exited s; q_slave_closed := q_slave_closed s; q_reader_done := false;
+              q_chan := q_chan s; q_ctl := q_ctl s; q_trace := PE LRunning :: q_trace s |}
+    | _ => None end
+  | QRead e =>
+    if q_reader_done s then None else
+      Some {| q_pc := q_pc s; q_exit := q_exit s; q_closed := q_closed s; q_reason := q_reason s; q_flag := q_flag s;
+              q_child_exited := q_child_exited s; q_slave_closed := q_slave_closed s; q_reader_done := false;
+              q_chan := q_chan s ++ [e]; q_ctl := q_ctl s; q_trace := q_trace s |}
+  | QChildExit =>
+    match q_pc s with
+    | QStart | QSpawnedPc => None
+    | _ =>
+      Some {| q_pc := q_pc s; q_exit := q_exit s; q_closed := q_closed s; q_reason := q_reason s; q_flag := q_flag s;
+              q_child_exited := true; q_slave_closed := q_slave_closed s; q_reader_done := q_reader_done s;
+              q_chan := q_chan s; q_ctl := q_ctl s; q_trace := q_trace s |}
+    end
+  | QSlaveClosed =>
+    if keeps then None else
+    match q_pc s with
+    | QStart | QSpawnedPc => None
+    | _ =>
+      Some {| q_pc := q_pc s; q_exit := q_exit s; q_closed := q_closed s; q_reason := q_reason s; q_flag := q_flag s;
+              q_child_exited := q_child_exited s; q_slave_closed := true; q_reader_done := q_reader_done s;
+              q_chan := q_chan s; q_ctl := q_ctl s; q_trace := q_trace s |}
+    end
+  | QReaderEof =>
+    if negb (q_reader_done s) && q_slave_closed s then
+      Some {| q_pc := q_pc s; q_exit := q_exit s; q_closed := q_closed s; q_reason := q_reason s; q_flag := q_flag s;
+              q_child_exited := q_child_exited s; q_slave_closed := q_slave_closed s; q_reader_done := true;
+              q_chan := q_chan s; q_ctl := q_ctl s; q_trace := q_trace s |}
+    else None
+  | QCancel =>
+    Some {| q_pc := q_pc s; q_exit := q_exit s; q_closed := q_closed s; q_reason := q_reason s; q_flag := true;
+            q_child_exited := q_child_exited s; q_slave_closed := q_slave_closed s; q_reader_done := q_reader_done s;
+            q_chan := q_chan s; q_ctl := q_ctl s; q_trace := q_trace s |}
+  | QCtlSend k =>
+    match q_pc s with
+    | QLoop =>
+      Some {| q_pc := q_pc s; q_exit := q_exit s; q_closed := q_closed s; q_reason := q_reason s; q_flag := q_flag s;
+              q_child_exited := q_child_exited s; q_slave_closed := q_slave_closed s; q_reader_done := q_reader_done s;
+              q_chan := q_chan s; q_ctl := q_ctl s ++ [k]; q_trace := q_trace s |}
+    | _ => None end
+  | QLoopExit ok =>
+    match q_pc s, q_exit s with
+    | QLoop, None =>
+      if q_child_exited s || negb ok then
+        Some {| q_pc := QLoop; q_exit := Some ok; q_closed := q_closed s; q_reason := q_reason s; q_flag := q_flag s;
+                q_child_exited := q_child_exited s; q_slave_closed := q_slave_closed s; q_reader_done := q_reader_done s;
+                q_chan := q_chan s; q_ctl := q_ctl s; q_trace := q_trace s |}
+      else None
+    | _, _ => None end
+  | QLoopCancel =>
+    match q_pc s with
+    | QLoop =>
+      if loop_goes_on s && negb (q_reason s) && q_flag s then
+        Some {| q_pc := QLoop; q_exit := q_exit s; q_closed := q_closed s; q_reason := true; q_flag := false;
+                q_child_exited := q_child_exited s; q_slave_closed := q_slave_closed s; q_reader_done := q_reader_done s;
+                q_chan := q_chan s; q_ctl := q_ctl s; q_trace := PE LCancelReq :: q_trace s |}
+      else None
+    | _ => None end
+  | QLoopCtl applied =>
+    match q_pc s, q_ctl s with
+    | QLoop, k :: rest =>
+      if loop_goes_on s then
+        let tr := push_chunks (q_chan s) (q_trace s) in
+        Some {| q_pc := QLoop; q_exit := q_exit s; q_closed := q_closed s; q_reason := q_reason s; q_flag := q_flag s;
+                q_child_exited := q_child_exited s; q_slave_closed := q_slave_closed s; q_reader_done := q_reader_done s;
+                q_chan := []; q_ctl := rest; q_trace := if applied then PCtl k :: tr else tr |}
+      else None
+    | _, _ => None end
+  | QLoopChunk =>
+    match q_pc s with
+    | QLoop =>
+      if q_closed s then None else
+      match q_chan s with
+      | c :: rest =>
+        Some {| q_pc := QLoop; q_exit := q_exit s; q_closed := false; q_reason := q_reason s; q_flag := q_flag s;
+                q_child_exited := q_child_exited s; q_slave_closed := q_slave_closed s; q_reader_done := q_reader_done s;
+                q_chan := rest; q_ctl := q_ctl s; q_trace := if c then pdelta :: q_trace s else q_trace s |}
+      | [] =>
+        if q_reader_done s then
+          Some {| q_pc := QLoop; q_exit := q_exit s; q_closed := true; q_reason := q_reason s; q_flag := q_flag s;
+                  q_child_exited := q_child_exited s; q_slave_closed := q_slave_closed s; q_reader_done := true;
+                  q_chan := []; q_ctl := q_ctl s; q_trace := q_trace s |}
+        else None
+      end
+    | _ => None end
+  | QLoopDone =>
+    match q_pc s, q_exit s with
+    | QLoop, Some ok =>
+      if q_closed s then
+        Some (q_with s (if q_reason s then QCancelEmit ok else QFinal (if ok then 2 else 4)) (q_trace s))
+      else None
+    | _, _ => None end
+  | QEmitCancelled =>
+    match q_pc s with
+    | QCancelEmit ok => Some (q_with s (QFinal (if ok then 3 else 4)) (PE LCancelled :: q_trace s))
+    | _ => None end
+  | QEmitFinal =>
+    match q_pc s with QFinal st => Some (q_with s QEnd (PE (LStatus st) :: q_trace s)) | _ => None end
+  end.
+
+Definition pstep_skip (keeps : bool) (s : psys) (a : pact) : psys :=
+  match pstep keeps s a with Some s' => s' | None => s end.
+(* every list of actions is a schedule (disabled actions are skipped): every interleaving of the four sources *)
+Definition prun (keeps : bool) (sched : list pact) : psys := fold_left (pstep_skip keeps) sched psys0.
+Definition ptrace (s : psys) : list pev := rev (q_trace s).
+
+(* from ANY state of the repaired waiter this continuation ends the task: the process terminates, the slave side
+   is closed, the reader thread sees the end, the loop consumes what is queued and leaves *)
+Definition pty_finish (s : psys) : list pact :=
+  [QSpawnFrame; QStartRunning; QChildExit; QSlaveClosed; QReaderEof; QLoopExit true]
+  ++ repeat QLoopChunk (S (length (q_chan s)))
+  ++ [QLoopDone; QEmitCancelled; QEmitFinal].
+
+(* correspondence: the frames of a real PTY task, re-enacted by the waiter of today's code (keeps = false) *)
+Definition pty_check (sched : list pact) : list N :=
+  let s := prun false sched in
+  let r := precognise (ptrace s) in
+  [ (match q_pc s with QEnd => 1 | _ => 0 end); (if r_prefix_ok r then 1 else 0); (if r_complete r then 1 else 0) ]
+  ++ map pev_code (ptrace s).
+
 (* correspondence check for an observed kind sequence of a real task *)
 Definition lc_check (codes : list N) (t : list lev) : list N :=
   let r := recognise t in
